@@ -33,6 +33,11 @@ def _opstr(o):
 def default_signature(rej):
     """signature of a rejection: op kinds of the round the specification could not explain"""
     tr = rej['trace']
+    for x in tr:
+        if x.get('e') == 'Crash':
+            import re
+            m = re.search(r'SUMMARY: (\S+: \S+ \S+)', ' '.join(x.get('report', [])))
+            return 'daemon-crash:' + (m.group(1) if m else 'rc=%s' % x.get('rc'))
     ln = tr[rej['line'] - 1] if 0 < rej['line'] <= len(tr) else {}
     kinds = []
     for ops in ln.get('ops', []):
